@@ -68,7 +68,7 @@ def outcome(o):
     vals = o.values
     if o.status == "map":
         vals = [(s, v, id(er) if er is not None else None) for s, v, er in o.values]
-    return (o.status, vals, id(o.error) if o.error is not None else None), inv
+    return (o.status, vals, id(o.error) if o.error is not None else None, id(o.exc) if o.exc is not None else None), inv
 
 
 def one_program(ctx, fam, i):
@@ -81,7 +81,7 @@ def one_program(ctx, fam, i):
     mode = "raise"
     if fids and rng.random() < 0.4:
         fail = {rng.choice(fids): RuntimeError("node boom")}
-        mode = "continue"
+        mode = rng.choice(["continue", "raise"])  # a raised node error must still surface, unchanged, to the caller
     cache_cls = None
     if fam["family"] == "cached":
         from hypergraph import InMemoryCache
